@@ -309,6 +309,8 @@ class NPX(types.ModuleType):
         super().__init__("numpy")
         self.linalg = _Linalg()
         self.random = _Random()
+        from . import numstubs
+        self.fft = numstubs.FFT
         self._over = {
             "sqrt": _ew1(_s_sqrt, math.sqrt, "sqrt"),
             "cos": _ew1(_s_cos, math.cos, "cos"),
